@@ -331,11 +331,52 @@ pub fn run_replicas(plan: &GatherPlan, mode: Mode) -> (crate::engine::RunResult,
                     Err(e) => errors.push(format!("build {}: {}", plan.metrics[i].name, e)),
                 }
             }
-            let concurrent = if plan.concurrent_gather && k == 0 { Some(compat::families_of(&reg.gather())) } else { None };
             let mfs = reg.gather();
             let fams = compat::families_of(&mfs);
             let typed = compat::typed_dump(&mfs);
             let text = crate::seams::catch(|| TextEncoder::new().encode_to_string(&mfs).unwrap_or_else(|e| format!("<encode error: {}>", e))).unwrap_or_else(|p| format!("<encode panic: {}>", p));
+            // after the replica's own dump: gather once more while another simulated thread creates and
+            // updates new children of the replica's vectors (structure of the result is checked)
+            let concurrent = if plan.concurrent_gather && k == 0 {
+                let mut vecs: Vec<Built> = vec![];
+                for b in &built {
+                    match b {
+                        Built::CV(v) => vecs.push(Built::CV(v.clone())),
+                        Built::IGV(v) => vecs.push(Built::IGV(v.clone())),
+                        Built::HV(v) => vecs.push(Built::HV(v.clone())),
+                        _ => {}
+                    }
+                }
+                let nvars: Vec<usize> = order.iter().filter(|&&i| plan.metrics[i].kind.is_vec()).map(|&i| plan.metrics[i].vars.len()).collect();
+                ctx.spawn("mutator", move |_c| {
+                    for (j, b) in vecs.iter().enumerate() {
+                        for extra in ["zz_new1", "zz_new3", "zz_new2"] {
+                            let vals: Vec<&str> = (0..nvars.get(j).copied().unwrap_or(1)).map(|_| extra).collect();
+                            match b {
+                                Built::CV(v) => {
+                                    if let Ok(c) = v.get_metric_with_label_values(&vals) {
+                                        c.inc()
+                                    }
+                                }
+                                Built::IGV(v) => {
+                                    if let Ok(c) = v.get_metric_with_label_values(&vals) {
+                                        c.inc()
+                                    }
+                                }
+                                Built::HV(v) => {
+                                    if let Ok(c) = v.get_metric_with_label_values(&vals) {
+                                        c.observe(1.0)
+                                    }
+                                }
+                                _ => {}
+                            }
+                        }
+                    }
+                });
+                Some(compat::families_of(&reg.gather()))
+            } else {
+                None
+            };
             ctx.ret(op_id(k, 0));
             outp.lock().unwrap()[k] = Some(Replica { fams, typed, text, concurrent, errors });
             keep.push(built);
@@ -426,8 +467,39 @@ fn execute_c07(plan: &GatherPlan, mode: Mode) -> RunOut {
             out.violations.push(Violation::new("C07/complete", "C07/complete", format!("replica {} (registration order {:?}): gather() differs from the model: {}", k, plan.orders[k], msg)));
         }
         if let Some(c) = &rep.concurrent {
-            if canon(c) != canon(&rep.fams) {
-                out.violations.push(Violation::new("C07/deterministic", "C07/repeat", format!("replica {}: two consecutive gathers of an unchanged registry differ", k)));
+            // gathered while children were being created: structure only
+            for w in c.windows(2) {
+                if w[0].name >= w[1].name {
+                    out.violations.push(Violation::new("C07/order", "C07/order", format!("replica {} (concurrent gather): family names not strictly increasing: {:?} then {:?}", k, w[0].name, w[1].name)));
+                }
+            }
+            for f in c {
+                let f = match strip_common(plan, f) {
+                    Ok(f) => f,
+                    Err(e) => {
+                        out.violations.push(Violation::new("C07/complete", "C07/common-labels", format!("replica {} (concurrent gather): {}", k, e)));
+                        continue;
+                    }
+                };
+                let keys: Vec<Vec<&String>> = f.metrics.iter().map(|m| m.labels.iter().map(|l| &l.1).collect()).collect();
+                for w in keys.windows(2) {
+                    if w[0] >= w[1] {
+                        out.violations.push(Violation::new("C07/order", "C07/sample-order", format!("replica {} (concurrent gather): samples of {:?} are not strictly ordered by label values: {:?} then {:?}", k, f.name, w[0], w[1])));
+                    }
+                }
+                // everything that existed before the concurrent phase is still there, unchanged
+                if let Some(wf) = want.iter().find(|wf| wf.name == f.name) {
+                    for wm in &wf.metrics {
+                        if !f.metrics.iter().any(|m| m == wm) {
+                            out.violations.push(Violation::new("C07/complete", "C07/complete", format!("replica {} (concurrent gather): sample {:?} of {:?} is missing or changed while other children were created", k, wm.labels, f.name)));
+                        }
+                    }
+                }
+            }
+            for wf in &want {
+                if !c.iter().any(|f| f.name == wf.name) {
+                    out.violations.push(Violation::new("C07/complete", "C07/complete", format!("replica {} (concurrent gather): family {:?} disappeared", k, wf.name)));
+                }
             }
         }
     }
